@@ -28,7 +28,7 @@ RULE = ('Validator specs = full product of a limit grid (in_range/all_in_range: 
         '(NaN, None, inf, -0.0, bool, huge int), or a constructor-rejection case; distinct by '
         'canonical JSON of (spec, probe).  Hypothesis part: arbitrary int/float limits and probes.  History part: sequences of '
         'validators built in one process with the SAME raw limits under different declared types (int / float / none, both orders): '
-        'each must decide by its own declaration.')
+        'each must decide by its own declaration.  Probes include ints beyond the float range (+-10**400); == between a validator and its deepcopy / with_args() / rebuilt twin must not raise.')
 ASSUMPTIONS = [
     'An exception raised by a probe (e.g. None into within_percent) counts as "not accepted", not as a violation.',
     'Limit tuples whose marginal limit lies beyond the *opposite* bound are outside the statement and are not generated.',
